@@ -228,7 +228,7 @@ pub fn property() -> Property {
         parts: vec![Box::new(GenPart {
             name: "schedules",
             rule: "see property rule",
-            cases: (40_000, 2_000_000),
+            cases: (480_000, 2_000_000),
             strategy,
             check,
             required_classes: &[">=3-packets", "first-label-substituted", "crc-only-end-packet", "buffer>4097", "pdu>4095", "skipped-buffer-mid-train", "explicit-reuse"],
